@@ -124,6 +124,12 @@ def checkKnn (k n : Nat) (key : Nat → α) (out : List Nat) : Bool :=
   (List.range n).all (fun j => out.contains j || out.all (fun i => decide (key i ≤ key j)))
 end knn
 
+/-- the verified checker as the driver runs it (round 7): on EXACT integers. The driver decodes every complete position — the
+very double that numpy hands to the KD-tree — into its exact dyadic value, scales all of them by one common power of two to
+integers, and evaluates the squared distances in `Int`; a common positive factor does not change any comparison. Elaborated
+here, without Mathlib, so the `≤` and its decision procedure are core `Int`'s. -/
+def checkKnnInt (k n : Nat) (key : Nat → Int) (out : List Nat) : Bool := checkKnn k n key out
+
 /-! ### the table -/
 
 /-- `np.intersect1d(np.unique(tomo_a), np.unique(tomo_nn))`: the common tomogram numbers, ascending,
